@@ -436,17 +436,56 @@ class TextScenario(Scenario):
         return [[2, last, s] for s in sys_ids[:2]]
 
 
+class _GuardedCursor:
+    """the cursor steps lazily on the shared connection: using it is an access to the shared resource"""
+    def __init__(self, cur, conn):
+        self._cur = cur
+        self._conn = conn
+
+    def fetchall(self):
+        self._conn._chk()
+        return self._cur.fetchall()
+
+    def fetchone(self):
+        self._conn._chk()
+        return self._cur.fetchone()
+
+    def fetchmany(self, *a):
+        self._conn._chk()
+        return self._cur.fetchmany(*a)
+
+    def close(self):
+        self._conn._chk()
+        return self._cur.close()
+
+    def __iter__(self):
+        self._conn._chk()
+        return iter(self._cur)
+
+    def __setattr__(self, n, v):
+        if n in ("_cur", "_conn"):
+            object.__setattr__(self, n, v)
+        else:
+            setattr(self._cur, n, v)
+
+    def __getattr__(self, n):
+        return getattr(self._cur, n)
+
+
 class _GuardedConn:
     def __init__(self, conn, store, rec):
         self._c = conn
         self._store = store
         self._rec = rec
 
-    def execute(self, *a, **k):
+    def _chk(self):
         lk = getattr(self._store, "_lock", None)
         if not (isinstance(lk, sched.CoopLock) and lk.owner is not None):
             self._rec.guard_violations += 1
-        return self._c.execute(*a, **k)
+
+    def execute(self, *a, **k):
+        self._chk()
+        return _GuardedCursor(self._c.execute(*a, **k), self)
 
     def __getattr__(self, n):
         return getattr(self._c, n)
@@ -482,6 +521,9 @@ class StoreScenario(Scenario):
         elif op == 3:
             d = st.get_data(str(call[1]))
             r = [6] + [x for k in sorted(d, key=int) for x in (int(k), d[k])]
+        elif op == 5:
+            st.delete_data(str(call[1]))
+            r = [5]
         else:
             r = [7] + sorted(int(s) for s in st.find_systems(str(call[1]), call[2]))
         if self.rec.guard_violations != before:
@@ -489,7 +531,7 @@ class StoreScenario(Scenario):
         return r
 
     def post_calls(self):
-        syss = sorted({c[1] for l in self.case["calls"] for c in l if c[0] in (0, 1, 2, 3)})
+        syss = sorted({c[1] for l in self.case["calls"] for c in l if c[0] in (0, 1, 2, 3, 5)})
         return [[3, s] for s in syss]
 
     def cleanup(self):
@@ -658,6 +700,11 @@ class C19(Check):
                       [[[0, 1, 1, 5], [0, 1, 2, 6]], [[3, 1], [4, 1, 5]]],
                       [[[0, 1, 1, 5], [2, 1, 1]], [[1, 1, 1]], [[3, 1]]]):
             out.append(({"comp": "store", "calls": calls}, b1))
+        # get_data of a system with several keys concurrent with delete_data / delete + re-create of the SAME
+        # system: a partially stepped cursor would yield a dict that never existed
+        out.append(({"comp": "store", "calls": [[[0, 1, 1, 1], [0, 1, 2, 2], [0, 1, 3, 3], [3, 1]], [[5, 1]]]}, b2))
+        out.append(({"comp": "store", "calls": [[[0, 1, 1, 1], [0, 1, 2, 2], [0, 1, 3, 3], [3, 1], [3, 1]],
+                                                [[5, 1], [0, 1, 4, 4]]]}, b1))
         # yaml: a tree that reaches one file twice (D15) and a plain two-file tree; ONE edit
         tbl = [[[(1, 1), (2, 1)], [(1, 2)]], [[(3, 1)], [(3, 2), (4, 2)]]]
         for tree, edits in (([0, 1, 0], [0]), ([0, 1], [1]), ([0, 1, 0], [1])):
